@@ -2,23 +2,33 @@
    Statements only; proofs in Proofs/C12Proofs.v.
 
    Proved: determinism of the modelled Unmarshal with respect to the only source of
-   nondeterminism in the code after the fix for F10 - Go's iteration order over the
-   decoded Fields map - and the deterministic binding rule.  The fixpoint part
+   nondeterminism in the code after the fixes for F10 and F12 - Go's iteration order over
+   the decoded Fields maps - and the deterministic binding rule.  The fixpoint part
    (n = Marshal(Unmarshal(x)) unmarshals to a JSON-equal document) is decided by the
    oracle on the real library for every generated document, and the unmarshaling of n
    itself is compared with the model like any other input; it has no theorem of its own
    (it would need a JSON number printing/parsing model). *)
 From Coq Require Import Sorting.Permutation.
 From Errdef Require Import Base.Str Base.Outcome Model.Core Model.Convert Model.Unmarshal Check.UM Check.C12
-  Proofs.C10Proofs Proofs.C13Proofs Proofs.C12Proofs.
+  Proofs.C10Proofs Proofs.SortFields Proofs.C13Proofs Proofs.C12Proofs.
 
-(* for every configuration, every document and every order in which the decoded fields
-   are met: success or failure alike; on success the same bound and unknown fields, stack
-   and causes; on failure the same set of possible failures *)
-Theorem C12_deterministic : forall c m k t fs fs' st cs u,
-  Permutation fs fs' -> res_equiv (unmarshal c (DD m k t fs st cs u)) (unmarshal c (DD m k t fs' st cs u)).
+(* for every configuration and every two decoded trees that differ only in the order in which
+   the fields of a node are met (Go's map iteration order; names distinct, as in a map), at
+   ANY depth of the tree: Unmarshal and the restoration of a cause return the very same
+   result - the same value or the same failure.  Before the fix for F12 this was false for
+   the code: a cause with an unregistered field and a non-convertible declared field (strict
+   mode) degraded to an unknown cause or failed the whole call depending on that order. *)
+Theorem C12_deterministic : forall c d d', dd_perm d d' -> both c d = both c d'.
 Proof. exact deterministic. Qed.
 Print Assumptions C12_deterministic.
+
+(* the fields of a node are visited in name order whatever order they are given in *)
+Theorem C12_field_order_is_name_order :
+  (forall l, Sorting.Sorted.StronglySorted name_le (sort_fields l) /\ Permutation (sort_fields l) l) /\
+  (forall l l', Permutation l l' -> NoDup (map fst l) -> sort_fields l = sort_fields l') /\
+  (forall c d, both c (norm d) = both c d).
+Proof. exact (conj (fun l => conj (sort_fields_sorted l) (sort_fields_perm l)) (conj sort_fields_perm_invariant both_norm)). Qed.
+Print Assumptions C12_field_order_is_name_order.
 
 (* which key a decoded field binds to is a function of the definition's insertion order
    (as of the fix for F10), never of map order *)
@@ -50,3 +60,23 @@ Example C12_example :
   unmarshal c (DD "m" "k1" "" [("z", s); ("n", f3)] [] [] "")
     = UOk (RErr d "m" [(kn, BScalar {| s_id := 2; s_kind := KInt |} (SInt 3))] [("z", s)] [] []).
 Proof. vm_compute. split; reflexivity. Qed.
+
+(* the F12 witness: strict mode, a cause with an unregistered field "zzz" and a declared field
+   "ints" whose value cannot be converted: both field orders now fail alike (ErrInternal) *)
+Example C12_example_F12 :
+  let ki := {| uk_key := {| k_id := 1; k_name := "ints"; k_ty := 104 |}; uk_ty := FJson 315 |} in
+  let d := {| ud_def := define 1000 0 "k3" [ONoTrace]; ud_keys := [ki] |} in
+  let c := {| u_defs := [d]; u_default := None; u_strict := true; u_custom := []; u_sentinels := [] |} in
+  let bad := DJ 7 [(315%N, None)] in
+  let one := DS {| s_id := 2; s_kind := KInt |} (SInt 1) in
+  let cause fs := DD "c" "k3" "" fs [] [] "" in
+  let top fs := DD "top" "k3" "" [] [] [Some (cause fs)] "" in
+  dd_perm (top [("ints", bad); ("zzz", one)]) (top [("zzz", one); ("ints", bad)]) /\
+  unmarshal c (top [("ints", bad); ("zzz", one)]) = UFail [internal_failure] /\
+  unmarshal c (top [("zzz", one); ("ints", bad)]) = UFail [internal_failure].
+Proof.
+  split; [|vm_compute; split; reflexivity].
+  constructor; [constructor|constructor|].
+  constructor; [|constructor]. constructor. constructor; [apply perm_swap| |constructor].
+  cbn. constructor; [intros [H|[]]; discriminate|]. constructor; [intros []|constructor].
+Qed.
